@@ -192,6 +192,9 @@ func (x *Exec) modifiesKeys(ctr *FuncContract, c *ssa.CallCommon, m string) ([]s
 		isMem = true
 		m = m[4 : len(m)-1]
 	}
+	if strings.HasPrefix(m, "map(") && strings.HasSuffix(m, ")") {
+		return nil, false // coarse: treated as "may modify anything" when summarising loop effects
+	}
 	// resolve the static type of the l-value: param.field.field
 	parts := strings.Split(m, ".")
 	pt := x.paramType(ctr, c, parts[0])
@@ -546,13 +549,29 @@ func (x *Exec) applyCallee(st *State, ins ssa.Instruction, c *ssa.CallCommon, ar
 				for _, m := range ctr.Modifies {
 					env := x.newCalleeEnv(pre, ctr, c)
 					bind(env)
-					x.havocLvalueIn(st, m, env)
+					if !x.tryHavocLvalue(st, m, env) {
+						// the location cannot be resolved (e.g. pointer hidden in an unknown interface value)
+						x.havocPointees(st, c, args)
+						x.havocAllHeap(st)
+					}
 				}
 			}
 		} else {
 			x.havocPointees(st, c, args)
 		}
 		res = x.freshValue(st, "ret_"+shortCallee(names[0]), rt)
+		if ctr.Sticky && len(res.L) == 1 {
+			key := "!sticky:" + names[0]
+			for _, a := range args {
+				for _, l := range a.L {
+					key += ":" + l.S
+				}
+			}
+			if last, ok := st.ghost[key]; ok {
+				st.assume(mkImplies(mkNot(mkEq(last.L[0], zeroTerm(last.L[0].Sort))), mkEq(res.L[0], last.L[0])))
+			}
+			st.ghost[key] = res
+		}
 	}
 	rets := splitResults(res)
 	for _, fr := range ctr.Fresh {
@@ -586,6 +605,10 @@ func (x *Exec) applyCallee(st *State, ins ssa.Instruction, c *ssa.CallCommon, ar
 		}
 		t, err := env.evalBool(cl.Expr)
 		if err != nil {
+			// clauses over the callee's locals are not visible to callers: assume nothing
+			if strings.Contains(err.Error(), "unknown identifier") {
+				continue
+			}
 			panic(fmt.Sprintf("%s:%d: ensures at call in %s: %v", cl.File, cl.Line, x.funcName(), err))
 		}
 		st.assume(t)
@@ -711,6 +734,24 @@ func (x *Exec) havocLvalueIn(st *State, m string, env *Env) {
 		}
 		return
 	}
+	if strings.HasPrefix(m, "map(") && strings.HasSuffix(m, ")") {
+		v, err := env.evalString(m[4 : len(m)-1])
+		if err != nil {
+			panic(fmt.Sprintf("modifies %s: %v", m, err))
+		}
+		mt, ok := v.T.Underlying().(*types.Map)
+		if !ok {
+			panic(fmt.Sprintf("modifies %s: not a map", m))
+		}
+		ks := x.mapKeySort(mt)
+		d := x.mapDom(st, mt)
+		x.mapSet(st, "MapD:"+typeKey(mt), mkStore(d, v.one(), x.fresh(st, "mod_mapdom", arrSortK(ks, sBool))))
+		for _, lf := range flatten(mt.Elem()) {
+			cur := x.mapVal(st, mt, lf)
+			x.mapSet(st, "MapV:"+typeKey(mt)+":"+lf.Path, mkStore(cur, v.one(), x.fresh(st, "mod_mapval", arrSortK(ks, lf.Sort))))
+		}
+		return
+	}
 	if strings.HasPrefix(m, "ghost ") {
 		g := strings.TrimSpace(m[6:])
 		if old, ok := st.ghost[g]; ok {
@@ -726,6 +767,20 @@ func (x *Exec) havocLvalueIn(st *State, m string, env *Env) {
 }
 
 func (x *Exec) havocLvalue(st *State, m string, env *Env) { x.havocLvalueIn(st, m, env) }
+
+func (x *Exec) tryHavocLvalue(st *State, m string, env *Env) (ok bool) {
+	defer func() {
+		if r := recover(); r != nil {
+			if s, isStr := r.(string); isStr && strings.Contains(s, "does not hold a known pointer") {
+				ok = false
+				return
+			}
+			panic(r)
+		}
+	}()
+	x.havocLvalueIn(st, m, env)
+	return true
+}
 
 // ---------------------------------------------------------------------
 // builtins
